@@ -221,11 +221,27 @@ func (cg *BasicConnectionGater) ListBlockedAddrs() []net.IP {
 	return result
 }
 
+// canonicalSubnet returns the subnet in the form loadRules reconstructs it after a
+// restart: host bits cleared and the mask in its natural length, exactly as
+// net.ParseCIDR returns it. Rules are keyed by the text of that form, so that
+// 10.1.2.3/24 and 10.1.2.0/24 (the same set of addresses) are the same rule.
+func canonicalSubnet(ipnet *net.IPNet) (string, *net.IPNet, error) {
+	_, n, err := net.ParseCIDR(ipnet.String())
+	if err != nil {
+		return "", nil, err
+	}
+	return n.String(), n, nil
+}
+
 // BlockSubnet adds an IP subnet to the set of blocked addresses.
 // Note: active connections to the IP subnet are not automatically closed.
 func (cg *BasicConnectionGater) BlockSubnet(ipnet *net.IPNet) error {
+	key, ipnet, err := canonicalSubnet(ipnet)
+	if err != nil {
+		return err
+	}
 	if cg.ds != nil {
-		err := cg.ds.Put(context.Background(), datastore.NewKey(keySubnet+ipnet.String()), []byte(ipnet.String()))
+		err := cg.ds.Put(context.Background(), datastore.NewKey(keySubnet+key), []byte(key))
 		if err != nil {
 			log.Error("error writing blocked addr to datastore", "err", err)
 			return err
@@ -235,15 +251,19 @@ func (cg *BasicConnectionGater) BlockSubnet(ipnet *net.IPNet) error {
 	cg.Lock()
 	defer cg.Unlock()
 
-	cg.blockedSubnets[ipnet.String()] = ipnet
+	cg.blockedSubnets[key] = ipnet
 
 	return nil
 }
 
 // UnblockSubnet removes an IP address from the set of blocked addresses
 func (cg *BasicConnectionGater) UnblockSubnet(ipnet *net.IPNet) error {
+	key, _, err := canonicalSubnet(ipnet)
+	if err != nil {
+		return err
+	}
 	if cg.ds != nil {
-		err := cg.ds.Delete(context.Background(), datastore.NewKey(keySubnet+ipnet.String()))
+		err := cg.ds.Delete(context.Background(), datastore.NewKey(keySubnet+key))
 		if err != nil {
 			log.Error("error deleting blocked subnet from datastore", "err", err)
 			return err
@@ -253,7 +273,7 @@ func (cg *BasicConnectionGater) UnblockSubnet(ipnet *net.IPNet) error {
 	cg.Lock()
 	defer cg.Unlock()
 
-	delete(cg.blockedSubnets, ipnet.String())
+	delete(cg.blockedSubnets, key)
 
 	return nil
 }
